@@ -381,14 +381,24 @@ func runCapListen(k, a int) string {
 	done := make(chan error, 1)
 	go func() { done <- p.ListenAndServe(ctx) }()
 	for _, ad := range addrs {
+		// wait until the listener answers: a probe sent before the socket is bound is refused at once (ICMP), so pause
+		// between attempts and give up only after 5 s of wall time
 		up := false
-		for i := 0; i < 25 && !up; i++ {
-			if r, err := udpExchange(ad, kindQuery(10+i, "ok"), 200*time.Millisecond); err == nil && len(r) >= 12 {
+		for i, dl := 0, time.Now().Add(5*time.Second); !up && time.Now().Before(dl); i++ {
+			if r, err := udpExchange(ad, kindQuery(10+i%200, "ok"), 200*time.Millisecond); err == nil && len(r) >= 12 {
 				up = true
+			} else {
+				time.Sleep(20 * time.Millisecond)
 			}
 		}
 		if !up {
-			return "ERR listener " + ad + " did not come up"
+			why := "still serving"
+			select {
+			case err := <-done:
+				why = fmt.Sprintf("ListenAndServe returned %v", err)
+			default:
+			}
+			return "ERR listener " + ad + " did not come up (" + why + ")"
 		}
 	}
 	atomic.StoreInt32(&g.maxActive, 0)
